@@ -363,8 +363,10 @@ func c09Rand(c *engine.Ctx, fn string, r *engine.Run) {
 				return
 			}
 		}
-		// the number must be made of the served octets (whenever every read delivered stream octets:
-		// full and short reads; a reader that ignores the byte count of a short read is caught here)
+		// provenance: the exponent is a function of the octets the source delivers, not of how the reads are
+		// partitioned. Whenever every read delivered stream octets (full or short reads), the first number must
+		// equal the number obtained from the same stream with full reads only; and it must differ from the
+		// number obtained from an unrelated stream.
 		onlyStream := true
 		for _, rec := range seam.Log {
 			if rec.Answer != engine.AnsA && rec.Answer != engine.AnsShort {
@@ -372,10 +374,14 @@ func c09Rand(c *engine.Ctx, fn string, r *engine.Run) {
 			}
 		}
 		if onlyStream && n1 != nil {
-			served := seam.Served()
-			nb := n1.Bytes()
-			if !bytes.Contains(served, nb[1:]) {
-				c.Violate("exponent-not-from-source", "returned number is not composed of the octets the source served", mk())
+			base := c09FirstNumber(0)
+			other := c09FirstNumber(7)
+			if base != nil && n1.Cmp(base) != 0 {
+				c.Violate("exponent-not-from-source", fmt.Sprintf("source answers [%s]: the same stream content delivered in different read sizes gives a different exponent (octets of short reads are lost or ignored)", envs), mk())
+				return
+			}
+			if base != nil && other != nil && base.Cmp(other) == 0 {
+				c.Violate("exponent-independent-of-source", "two unrelated streams give the same exponent", mk())
 				return
 			}
 		}
@@ -403,4 +409,23 @@ func c09Rand(c *engine.Ctx, fn string, r *engine.Run) {
 		}
 	}
 	c.Sample("rand/"+fn, map[string]interface{}{"fn": fn, "answers": seam.Answers(), "octets_consumed": seam.Consumed()})
+}
+
+var c09FirstCache = map[uint64]*big.Int{}
+
+// c09FirstNumber: GenerateRandomNumber on the default answers of the given stream.
+func c09FirstNumber(stream uint64) *big.Int {
+	if v, ok := c09FirstCache[stream]; ok {
+		return v
+	}
+	seam := engine.NewSeam(nil, nil)
+	seam.Stream = stream
+	restore := engine.Install(seam)
+	n, err := security.GenerateRandomNumber()
+	restore()
+	if err != nil {
+		n = nil
+	}
+	c09FirstCache[stream] = n
+	return n
 }
